@@ -1,85 +1,13 @@
-"""Per-property wiring: which engines produce the cases, what the evidence says."""
-PROPS = {
-    "C15": {
-        "engines": ["rt"],
-        "level_text": "Theorems for all uint64 values, all buffers/offsets and all byte strings about a Gallina model of runtime.Sov/Soz/EncodeVarint/Skip (sizes equal protowire's formula and the writer's length; the writer stores exactly the minimal varint ending at the offset, touches nothing else, panics exactly when room is missing; Skip never panics, terminates, progresses, returns the exact length of any well-formed record incl. nested groups); the model is run against the Go functions and protowire on ~125k inputs per quick run.",
-        "level_note": "Trusted: Coq kernel, extraction (ExtrOcamlBasic), OCaml driver, Go runner; the model is hand-written and tied to runtime.go by differential testing only. Go slices assumed shorter than 2^63 bytes.",
-        "rule": "Sov/Soz: every bit-length boundary +-1, 7k-bit boundaries, sign-extended int32 patterns, random 64-bit; EncodeVarint: those values x buffer lengths x every offset incl. the panicking ones; Skip: all byte strings of length <=2, all strings of length 3..4 over a 13-byte alphabet, random well-formed records (nested groups) + truncations, bit flips, adversarial lengths, overlong varints. distinct_nontrivial counts distinct (function, bit-length/outcome class, 12-byte input prefix) keys.",
-        "trusted": ["google.golang.org/protobuf/encoding/protowire v1.34.0 as the reference for the implementation-side predicate"],
-        "assumptions": ["Go's bits.Len64, integer shifts and slice indexing behave as transcribed in Model/Runtime.v"],
-    },
-    "C17": {
-        "engines": ["time"],
-        "rule": "Add: full product of timestamp seconds (range extremes, 0, +-1) x nanos boundaries x duration seconds x duration nanos of both signs (every carry/borrow boundary), int64 extremes for the overflow clause, then random valid pairs biased to nanos sums near 0 and 1e9; AddStd and Compare on the same. distinct_nontrivial counts distinct (class, outcome, sign of nanos-sum - 1e9, sign of nanos-sum, sign of duration) keys.",
-        "level_text": "Theorems for all valid timestamps/durations (and, for the overflow clause, all int64 seconds) about a Gallina model of timepb.Add/AddStd/Compare with Go's int64/int32 wrap-around written out: Add is exact, normalised and never panics on valid inputs, equals AddStd on every time.Duration, panics whenever the carried seconds sum leaves int64; Compare is the chronological total order. The model is run against the Go functions and a math/big oracle on ~50k cases per quick run.",
-        "level_note": "Trusted: Coq kernel, extraction, OCaml driver, Go runner; time.Time arithmetic inside AddStd is modelled as exact integer arithmetic (validated by the run, not proved); 'returns a fresh value' is checked on the implementation only (pointer inequality, arguments unchanged).",
-        "trusted": ["math/big and timestamppb/durationpb CheckValid as the implementation-side oracle"],
-        "assumptions": ["time.Time.Add is exact for instants reachable from a valid Timestamp by an int64 nanosecond offset"],
-    },
-    "C01": {
-        "engines": ['codec'],
-        "rule": 'Schemas: kind x shape x tag-width matrix (vm), sint oneof members (vmz), well-known types across packages (vw), renamed copies of the checked-in schemas regenerated by the working-tree plugin (vtestpb, vtest3) and the checked-in packages themselves. Values: the empty message, one-hot messages (each field alone with each boundary value of its kind: 7k-bit varint boundaries, int extremes, -0/inf/quiet and signalling NaNs, 126/127/128-byte strings), random messages of density 2..8 with nil/empty containers, nil list elements / map values / oneof payloads, unknown records of every wire type. distinct_nontrivial counts distinct (schema, message, class, populated-slot signature) keys.',
-        "level_text": "Round-trip theorems on the schema-parametric model (Properties/C01.v) + the extracted model run against freshly generated and checked-in code on every value (bytes, size, decode result) + the property's own predicate on the implementation (decode(encode v) = norm v in both marshal modes, Marshal never fails for valid UTF-8).",
-        "level_note": 'Trusted: Coq kernel, extraction, OCaml driver, Go runner (value builder/reader through package reflect + struct tags, dynamicpb as the reference holding the same value). The model (Model/Codec.v, Model/Decode.v) is hand-written and schema-parametric; it is tied to the code emitted by the working-tree generator by running both on every case of the run: agreement outside the exercised schemas/values is modelled, not verified.',
-        "trusted": ["google.golang.org/protobuf v1.34.0 (proto, dynamicpb, protowire) as the reference", "protodesc.NewFiles as the judge of schema validity in place of protoc"],
-        "assumptions": ["Go slices/maps/append/conversions behave as transcribed in the model", "Go map iteration is modelled as an arbitrary order"],
-    },
-    "C02": {
-        "engines": ['codec'],
-        "rule": 'Schemas: kind x shape x tag-width matrix (vm), sint oneof members (vmz), well-known types across packages (vw), renamed copies of the checked-in schemas regenerated by the working-tree plugin (vtestpb, vtest3) and the checked-in packages themselves. Values: the empty message, one-hot messages (each field alone with each boundary value of its kind: 7k-bit varint boundaries, int extremes, -0/inf/quiet and signalling NaNs, 126/127/128-byte strings), random messages of density 2..8 with nil/empty containers, nil list elements / map values / oneof payloads, unknown records of every wire type. distinct_nontrivial counts distinct (schema, message, class, populated-slot signature) keys.',
-        "level_text": 'Theorems relating the faithful encoder model to an independently written reference encoder specification (Properties/C02.v: generation-time key bytes = varint of num<<3|wt for every field number, field order, map order) + model vs generated code + generated code vs dynamicpb deterministic bytes on every value.',
-        "level_note": 'Trusted: Coq kernel, extraction, OCaml driver, Go runner (value builder/reader through package reflect + struct tags, dynamicpb as the reference holding the same value). The model (Model/Codec.v, Model/Decode.v) is hand-written and schema-parametric; it is tied to the code emitted by the working-tree generator by running both on every case of the run: agreement outside the exercised schemas/values is modelled, not verified.',
-        "trusted": ["google.golang.org/protobuf v1.34.0 (proto, dynamicpb, protowire) as the reference", "protodesc.NewFiles as the judge of schema validity in place of protoc"],
-        "assumptions": ["Go slices/maps/append/conversions behave as transcribed in the model", "Go map iteration is modelled as an arbitrary order"],
-    },
-    "C04": {
-        "engines": ['codec'],
-        "rule": 'Schemas: kind x shape x tag-width matrix (vm), sint oneof members (vmz), well-known types across packages (vw), renamed copies of the checked-in schemas regenerated by the working-tree plugin (vtestpb, vtest3) and the checked-in packages themselves. Values: the empty message, one-hot messages (each field alone with each boundary value of its kind: 7k-bit varint boundaries, int extremes, -0/inf/quiet and signalling NaNs, 126/127/128-byte strings), random messages of density 2..8 with nil/empty containers, nil list elements / map values / oneof payloads, unknown records of every wire type. distinct_nontrivial counts distinct (schema, message, class, populated-slot signature) keys.',
-        "level_text": 'Theorem size = length of the emitted bytes for every schema and value incl. nil/empty nested values (Properties/C04.v), hence Marshal never panics nor pads + model vs implementation on Size and bytes + Size/len(Marshal)/reference size and MarshalAppend prefix checks on the implementation.',
-        "level_note": 'Trusted: Coq kernel, extraction, OCaml driver, Go runner (value builder/reader through package reflect + struct tags, dynamicpb as the reference holding the same value). The model (Model/Codec.v, Model/Decode.v) is hand-written and schema-parametric; it is tied to the code emitted by the working-tree generator by running both on every case of the run: agreement outside the exercised schemas/values is modelled, not verified.',
-        "trusted": ["google.golang.org/protobuf v1.34.0 (proto, dynamicpb, protowire) as the reference", "protodesc.NewFiles as the judge of schema validity in place of protoc"],
-        "assumptions": ["Go slices/maps/append/conversions behave as transcribed in the model", "Go map iteration is modelled as an arbitrary order"],
-    },
-    "C05": {
-        "engines": ['codec'],
-        "rule": 'Schemas: kind x shape x tag-width matrix (vm), sint oneof members (vmz), well-known types across packages (vw), renamed copies of the checked-in schemas regenerated by the working-tree plugin (vtestpb, vtest3) and the checked-in packages themselves. Values: the empty message, one-hot messages (each field alone with each boundary value of its kind: 7k-bit varint boundaries, int extremes, -0/inf/quiet and signalling NaNs, 126/127/128-byte strings), random messages of density 2..8 with nil/empty containers, nil list elements / map values / oneof payloads, unknown records of every wire type. distinct_nontrivial counts distinct (schema, message, class, populated-slot signature) keys.',
-        "level_text": 'Theorem: the deterministic encoding does not depend on the order of map association lists at any depth (Properties/C05.v) + repeated marshalling and alternative construction histories on the implementation.',
-        "level_note": 'Trusted: Coq kernel, extraction, OCaml driver, Go runner (value builder/reader through package reflect + struct tags, dynamicpb as the reference holding the same value). The model (Model/Codec.v, Model/Decode.v) is hand-written and schema-parametric; it is tied to the code emitted by the working-tree generator by running both on every case of the run: agreement outside the exercised schemas/values is modelled, not verified.',
-        "trusted": ["google.golang.org/protobuf v1.34.0 (proto, dynamicpb, protowire) as the reference", "protodesc.NewFiles as the judge of schema validity in place of protoc"],
-        "assumptions": ["Go slices/maps/append/conversions behave as transcribed in the model", "Go map iteration is modelled as an arbitrary order"],
-    },
-    "C07": {
-        "engines": ['codec', 'decode'],
-        "rule": 'Schemas: kind x shape x tag-width matrix (vm), sint oneof members (vmz), well-known types across packages (vw), renamed copies of the checked-in schemas regenerated by the working-tree plugin (vtestpb, vtest3) and the checked-in packages themselves. Values: the empty message, one-hot messages (each field alone with each boundary value of its kind: 7k-bit varint boundaries, int extremes, -0/inf/quiet and signalling NaNs, 126/127/128-byte strings), random messages of density 2..8 with nil/empty containers, nil list elements / map values / oneof payloads, unknown records of every wire type. distinct_nontrivial counts distinct (schema, message, class, populated-slot signature) keys.',
-        "level_text": 'Frame theorems on the model + scribble tests on the implementation: input buffer unchanged and overwritable after Unmarshal, Marshal output overwritable, struct unchanged (nil-vs-empty included) around Size/Marshal.',
-        "level_note": 'Trusted: Coq kernel, extraction, OCaml driver, Go runner (value builder/reader through package reflect + struct tags, dynamicpb as the reference holding the same value). The model (Model/Codec.v, Model/Decode.v) is hand-written and schema-parametric; it is tied to the code emitted by the working-tree generator by running both on every case of the run: agreement outside the exercised schemas/values is modelled, not verified.',
-        "trusted": ["google.golang.org/protobuf v1.34.0 (proto, dynamicpb, protowire) as the reference", "protodesc.NewFiles as the judge of schema validity in place of protoc"],
-        "assumptions": ["Go slices/maps/append/conversions behave as transcribed in the model", "Go map iteration is modelled as an arbitrary order"],
-    },
-    "C03": {
-        "engines": ['decode'],
-        "rule": 'Streams: (a) encodings of random values re-serialised by a well-typedness-preserving mutator at every nesting depth (reorder, duplicate, split/merge packed runs, pack/unpack, split singular and oneof message records, map entries with reordered/missing/duplicated key or value and unknown subfields, interleaved unknown records incl. groups, non-minimal tags, concatenations, Merge into a non-empty message, DiscardUnknown); (b) truncations at every offset, bit flips, adversarial lengths (2^31, 2^63-1, 2^63, 2^64-1), every field number x every wire type x 8 tails, field numbers >= 2^29 and = known mod 2^32, random bytes, nesting depth 100/9999/10000/10001/20000. distinct_nontrivial counts distinct (message, class, outcome, 10-byte prefix) keys.',
-        "level_text": 'Theorems about the faithful decoder model on well-typed streams (Properties/C03.v) + three-way comparison model / generated code / dynamicpb on every mutated stream.',
-        "level_note": 'Trusted: Coq kernel, extraction, OCaml driver, Go runner (value builder/reader through package reflect + struct tags, dynamicpb as the reference holding the same value). The model (Model/Codec.v, Model/Decode.v) is hand-written and schema-parametric; it is tied to the code emitted by the working-tree generator by running both on every case of the run: agreement outside the exercised schemas/values is modelled, not verified.',
-        "trusted": ["google.golang.org/protobuf v1.34.0 (proto, dynamicpb, protowire) as the reference", "protodesc.NewFiles as the judge of schema validity in place of protoc"],
-        "assumptions": ["Go slices/maps/append/conversions behave as transcribed in the model", "Go map iteration is modelled as an arbitrary order"],
-    },
-    "C06": {
-        "engines": ['decode'],
-        "rule": 'Streams: (a) encodings of random values re-serialised by a well-typedness-preserving mutator at every nesting depth (reorder, duplicate, split/merge packed runs, pack/unpack, split singular and oneof message records, map entries with reordered/missing/duplicated key or value and unknown subfields, interleaved unknown records incl. groups, non-minimal tags, concatenations, Merge into a non-empty message, DiscardUnknown); (b) truncations at every offset, bit flips, adversarial lengths (2^31, 2^63-1, 2^63, 2^64-1), every field number x every wire type x 8 tails, field numbers >= 2^29 and = known mod 2^32, random bytes, nesting depth 100/9999/10000/10001/20000. distinct_nontrivial counts distinct (message, class, outcome, 10-byte prefix) keys.',
-        "level_text": 'Totality theorems for all byte strings on the faithful decoder model (never Panic, fuel suffices, depth bounded) + model vs generated code on malformed streams + panic/hang/allocation/depth observations on the implementation.',
-        "level_note": 'Trusted: Coq kernel, extraction, OCaml driver, Go runner (value builder/reader through package reflect + struct tags, dynamicpb as the reference holding the same value). The model (Model/Codec.v, Model/Decode.v) is hand-written and schema-parametric; it is tied to the code emitted by the working-tree generator by running both on every case of the run: agreement outside the exercised schemas/values is modelled, not verified.',
-        "trusted": ["google.golang.org/protobuf v1.34.0 (proto, dynamicpb, protowire) as the reference", "protodesc.NewFiles as the judge of schema validity in place of protoc"],
-        "assumptions": ["Go slices/maps/append/conversions behave as transcribed in the model", "Go map iteration is modelled as an arbitrary order"],
-    },
-    "C14": {
-        "engines": ['decode', 'codec'],
-        "rule": 'Streams: (a) encodings of random values re-serialised by a well-typedness-preserving mutator at every nesting depth (reorder, duplicate, split/merge packed runs, pack/unpack, split singular and oneof message records, map entries with reordered/missing/duplicated key or value and unknown subfields, interleaved unknown records incl. groups, non-minimal tags, concatenations, Merge into a non-empty message, DiscardUnknown); (b) truncations at every offset, bit flips, adversarial lengths (2^31, 2^63-1, 2^63, 2^64-1), every field number x every wire type x 8 tails, field numbers >= 2^29 and = known mod 2^32, random bytes, nesting depth 100/9999/10000/10001/20000. distinct_nontrivial counts distinct (message, class, outcome, 10-byte prefix) keys.',
-        "level_text": 'Theorems about unknown-field handling on the decoder/encoder models (Properties/C14.v) + per-level comparison with dynamicpb incl. DiscardUnknown and re-encoding.',
-        "level_note": 'Trusted: Coq kernel, extraction, OCaml driver, Go runner (value builder/reader through package reflect + struct tags, dynamicpb as the reference holding the same value). The model (Model/Codec.v, Model/Decode.v) is hand-written and schema-parametric; it is tied to the code emitted by the working-tree generator by running both on every case of the run: agreement outside the exercised schemas/values is modelled, not verified.',
-        "trusted": ["google.golang.org/protobuf v1.34.0 (proto, dynamicpb, protowire) as the reference", "protodesc.NewFiles as the judge of schema validity in place of protoc"],
-        "assumptions": ["Go slices/maps/append/conversions behave as transcribed in the model", "Go map iteration is modelled as an arbitrary order"],
-    },
-}
+"""Per-property wiring: which engines produce the cases, what the evidence says.
+One JSON file per property under lib/props.d/ (keys: engines, rule, level_text, level_note, trusted, assumptions, optional level,
+technique, design_ref, allowed_axioms, build_is_property, all_propfails). An engine entry is a name or [name, extra args...]."""
+import glob, json, os
 
+PROPS = {}
+for _p in sorted(glob.glob(os.path.join(os.path.dirname(os.path.abspath(__file__)), "props.d", "*.json"))):
+    _d = json.load(open(_p))
+    _d["engines"] = [e if isinstance(e, str) else tuple(e) for e in _d["engines"]]
+    PROPS[os.path.basename(_p)[:-5]] = _d
+
+# properties deliberately not claimed: id -> reason (everything else not in PROPS is reported as "not built yet")
 NOT_APPLICABLE = {}
